@@ -15,6 +15,9 @@ var (
 type Error struct {
 	ori error
 	msg string
+	// unprompted: the reader met this end of the stream while nobody had
+	// stopped it yet (a later cancellation by the caller does not undo it)
+	unprompted bool
 }
 
 func newError(ori error) *Error {
